@@ -5,6 +5,7 @@ import PfModel.Lemmas.LazySimRun
 import PfModel.DriverC18Refuse
 import PfModel.DriverC18Cont
 import PfModel.DriverC18Multi
+import PfModel.DriverC18Fault
 /-! Driver for C18 (`lazy.run`): a session of lazy calls, `evaluate()`s and `construct_dag()` blocks on one pipeline. -/
 open Lean PF PF.Drv PF.Pipe PF.Lazy
 
@@ -106,6 +107,7 @@ def handle (m : String) (a : Json) : R Json := do
   | "rsession" => PF.DrvC18Refuse.handle a
   | "csession" => PF.DrvC18Cont.handle a
   | "msession" => PF.DrvC18Multi.handle a
+  | "fsession" => PF.DrvC18Fault.handle a
   | _ => .error s!"unknown entry {m}"
 
 def main : IO Unit := loop handle
